@@ -555,6 +555,10 @@ class AsyncClient(base_client.BaseClient):
                 await self.queue.put(None)
                 break
             for pkt in p.packets:
+                if self.state != 'connected':
+                    # the connection was ended while this response was in
+                    # flight, or by an earlier packet of it
+                    break
                 await self._receive_packet(pkt)
 
         if self.write_loop_task:  # pragma: no branch
@@ -609,6 +613,9 @@ class AsyncClient(base_client.BaseClient):
                 self.logger.info(
                     'Unexpected error decoding packet: "%s", aborting', str(e))
                 await self.queue.put(None)
+                break
+            if self.state != 'connected':
+                # the connection was ended while waiting for this frame
                 break
             await self._receive_packet(pkt)
 
